@@ -135,7 +135,6 @@ impl Outcome {
 /// One executed operation with everything observed around it.
 #[derive(Clone)]
 pub struct Step {
-    pub idx: usize,
     pub op: Op,
     pub before: Snap,
     pub after: Snap,
